@@ -90,4 +90,18 @@ CHECKS = {
              "thorough": {"checks": 30000, "shards": 16, "timeout": 3600, "shrink": "60s"}},
         ],
     },
+    "C12": {
+        "level": "exploration",
+        "rule": "rapid-generated schedules (0-5 mock peers with connect / disconnect / reconnect ticks; 1-4 overlapping batches of 1-6 requests with per-attempt outcomes answer / progress / silence / disconnect, retry caps, NoRetryMax, hard and idle timeouts, cancel channels, callers that never read, early Stop, probe batches) run against the real work manager, workers and peer ranking in a synctest bubble; a history oracle checks exactly-one verdict per batch, nil only if every handler finished, every error justified by an event of the history, re-issue of unanswered requests while a peer is idle, ranking preference, Stop and later batches never blocked. Non-trivial = a request is queued to a peer a second time after a failed attempt AND two scripted batches are without verdict at the same quiescent instant; distinct = distinct case JSON",
+        "assumptions": [
+            "all times are multiples of a 500 ms tick; same-instant orderings are all accepted",
+            "an address reconnecting in the very instant its previous session disconnects is not generated (the client redials after >= 5 s); in that schedule the dispatcher can wedge or dereference nil (recorded in DESIGN.md as an observation outside the generated domain)",
+            "hard timeout and external cancel are enforced lazily as documented (checked when a result of that batch arrives)",
+        ],
+        "units": [
+            {"name": "query", "module": "harness", "pkg": "./checks/c12", "test": "TestC12", "tags": "verif",
+             "quick": {"checks": 1500, "shards": 16, "timeout": 600},
+             "thorough": {"checks": 40000, "shards": 16, "timeout": 3600, "shrink": "60s"}},
+        ],
+    },
 }
